@@ -346,26 +346,39 @@ def r5_sorted_emission(ctx, rep):
 
 def r6_project_graph_roots(ctx, rep):
     py = ctx.py
-    ga = py.func("GraphManager.graph_all")
+    ga = py.ifunc("GraphManager.graph_all")
     pairs = {"usenodes": "usesgraph", "callnodes": "callsgraph"}
     n = 0
-    for c in py.walk_calls(ga):
+
+    def atom_for(own: str):
+        def atom(e):
+            # `len(p.<own>.added) > 1` in any spelling: the entity's own graph has more than its root
+            if isinstance(e, ast.Compare) and len(e.ops) == 1 and own in ast.unparse(e):
+                l_has = own in ast.unparse(e.left)
+                op = e.ops[0]
+                if isinstance(op, (ast.Gt, ast.GtE, ast.NotEq)):
+                    return ("own", l_has)
+                if isinstance(op, (ast.Lt, ast.LtE, ast.Eq)):
+                    return ("own", not l_has)
+            return None
+        return atom
+    for e in astq.trace(ga):
+        if e.kind != "call":
+            continue
+        c = e.node
         cn = call_name(c)
         lst = cn.split(".")[0]
         if cn.endswith(".append") and lst in pairs and c.args and isinstance(c.args[0], ast.Name):
-            # enclosing conditions up to the for loop
-            p = c
-            tests = []
-            while not isinstance(p, ast.For):
-                child = p
-                p = py.parents[p]
-                if isinstance(p, ast.If) and child in p.body:
-                    tests.append(ast.unparse(p.test))
             n += 1
-            other = [t for t in tests if pairs[lst] not in t]
-            ok = len(tests) == 1 and not other
-            rep.ob(f"graph_all: {lst}.append({c.args[0].id}) in loop over {ast.unparse(p.iter)[:30]}", ok,
-                   f"guarded only by `{tests[0]}`" if ok else
+            # the entity is a root exactly when its own graph is not trivial: the path conditions (nested test, early
+            # `continue`, negated else-branch alike) evaluate to true under that proposition alone
+            ok = astq.event_fires(e, atom_for(pairs[lst]), {"own": True}) is True and \
+                astq.event_fires(e, atom_for(pairs[lst]), {"own": False}) is False
+            tests = e.cond_texts()
+            loop = e.loops[-1] if e.loops else None
+            where = ast.unparse(loop.iter)[:30] if isinstance(loop, ast.For) else "?"
+            rep.ob(f"graph_all: {lst}.append({c.args[0].id}) in loop over {where}", ok,
+                   f"guarded only by `{tests}`" if ok else
                    f"membership in the project-wide {'call' if lst == 'callnodes' else 'use'} graph depends on {tests}: an "
                    f"entity with calls but no USE (or vice versa) is left out of that graph although its own graphs show "
                    f"the relation", py.nloc(c))
@@ -374,8 +387,25 @@ def r6_project_graph_roots(ctx, rep):
     # file dependency edges come from the recursive USE closure (shared with C06.R3)
     from . import c06
     c06.r3_dependency_order(ctx, rep)
-    fnode = ast.unparse(py.func("FileNode.__init__"))
-    ok = "for dep in mod.deplist" in fnode and "dep.source_file == obj" in fnode
+    fnode = py.func("FileNode.__init__")
+    ok = False
+    for lp in ast.walk(fnode):
+        if isinstance(lp, ast.For) and ast.unparse(lp.iter).endswith(".deplist") and isinstance(lp.target, ast.Name):
+            src = f"{lp.target.id}.source_file"
+            adds = [c for c in py.walk_calls(lp) if call_name(c).endswith(("efferent.add", "afferent.add"))]
+            looked_up = any(any(ast.unparse(a) == src for a in c.args) for c in py.walk_calls(lp))
+
+            def atom(e, src=src):
+                # "the dependency is defined in this very file": `dep.source_file == obj`, either way round
+                if isinstance(e, ast.Compare) and len(e.ops) == 1 and isinstance(e.ops[0], (ast.Eq, ast.NotEq, ast.Is, ast.IsNot)) and \
+                        {ast.unparse(e.left), ast.unparse(e.comparators[0])} == {src, "obj"}:
+                    return ("self", isinstance(e.ops[0], (ast.Eq, ast.Is)))
+                return None
+            evs = [e for e in astq.trace_block([lp], fnode) if e.kind == "call" and call_name(e.node).endswith("efferent.add")]
+            # every dependency on another file is recorded, whatever else is known about that file
+            only_self_skipped = bool(evs) and all(astq.event_fires(e, atom, {"self": False}) is True and
+                                                   astq.event_fires(e, atom, {"self": True}) is False for e in evs)
+            ok = ok or (bool(adds) and looked_up and only_self_skipped)
     rep.ob("file graph edges come from deplist", ok, "", "ford/graphs.py")
 
 
